@@ -530,11 +530,11 @@ def tasks(tier):
     for i in range(0, m, step):
         t.append({'k': 'avs', 'n': n, 'lo': i, 'hi': min(m, i + step)})
     t.append({'k': 'ava', 'n': n, 'block': 24 if T else 40})
-    ncomb = 20 if T else 8
+    ncomb = 16 if T else 6
     for cfg in ft_configs(tier):
         masks = [None]
         if cfg['sol'] == 'full3':
-            masks.append({'kind': 'run', 'start': comb(400, ncomb)[2], 'len': 5, 'rows': 'all'})
+            masks.append({'kind': 'run', 'start': comb(400, ncomb)[2], 'len': 5, 'shift': 0})
         for mk in masks:
             if T:
                 for half in (0, 1):
@@ -545,10 +545,11 @@ def tasks(tier):
         if not T and not (cfg['sol'] in ('full3', 'stag3') and not cfg['toair']):
             continue
         for dt, val in (('i4', 1), ('bool', 1), ('i4', 64)):
-            if not T and (dt, val) != ('i4', 1) and cfg['sol'] != 'full3':
+            if (dt, val) != ('i4', 1) and cfg['sol'] not in (('full3', 'stag3') if T else ('full3',)):
                 continue
-            t.append({'k': 'ftmask', 'cfg': cfg, 'ncomb': ncomb, 'dt': dt, 'val': val,
-                      'lens': list(range(1, 11)) if T else [1, 2, 5, 10]})
+            for part in ((0, 1) if T else (None,)):
+                t.append({'k': 'ftmask', 'cfg': cfg, 'ncomb': ncomb, 'dt': dt, 'val': val, 'part': part,
+                          'lens': list(range(1, 11)) if T else [1, 3, 10]})
     return t
 
 
@@ -604,6 +605,8 @@ def run_task(task):
         for w in menu:
             for fn in ('airtovac', 'vactoair'):
                 for form in SCALAR_FORMS:
+                    if form == 'int' and w != int(w):
+                        continue
                     _do_av(acc, {'f': 'av', 'fn': fn, 'form': form, 'wl': w})
     elif k == 'ava':
         menu = wave_menu(task['n'])
@@ -619,59 +622,49 @@ def run_task(task):
                     _do_av(acc, {'f': 'av', 'fn': fn, 'form': form, 'wl': list(blk)})
     elif k == 'ftlin':
         cfg, nc = task['cfg'], task['ncomb']
-        nrows = len(SOLS[cfg['sol']][1])
         pairs = list(itertools.combinations(range(nc), 2))
         if task['half'] is not None:
             pairs = pairs[task['half']::2]
-        # constants
-        crow = [{'c': 1.0}, {'c': -2.5}, {'c': 1000.0}][:nrows]
-        _do_ft(acc, {'f': 'ft', 'cfg': cfg, 'mask': task['mask'], 'rel': 'const', 'rows': crow, 'ncomb': nc})
+        if not task['half']:
+            _do_ft(acc, {'f': 'ft', 'cfg': cfg, 'mask': task['mask'], 'rel': 'const',
+                         'rows': [{'c': 1.0}, {'c': -2.5}, {'c': 1000.0}], 'ncomb': nc})
         for i, j in pairs:
             for a, b, c0, amp in LIN_COEF:
-                for order in ((i, j), (j, i)) if (a, b) != (1.0, 1.0) else ((i, j),):
+                for order in (((i, j), (j, i)) if (a, b) != (1.0, 1.0) else ((i, j),)):
                     f1 = {'c': 0.0, 'imp': [[order[0], 1.0]]}
                     f2 = {'c': c0, 'imp': [[order[1], amp]]}
                     f3 = {'c': b * c0, 'imp': [[order[0], a], [order[1], b * amp]]}
-                    if nrows >= 3:
-                        _do_ft(acc, {'f': 'ft', 'cfg': cfg, 'mask': task['mask'], 'rel': 'lin', 'rows': [f1, f2, f3],
-                                     'ab': [a, b], 'ncomb': nc})
-                    else:
-                        # two-trace solutions: the relation needs three results -> two calls; handled by replaying rows pairwise
-                        _do_ft(acc, {'f': 'ft2', 'cfg': cfg, 'mask': task['mask'], 'rel': 'lin', 'rows': [f1, f2, f3],
-                                     'ab': [a, b], 'ncomb': nc})
+                    _do_ft(acc, {'f': 'ft', 'cfg': cfg, 'mask': task['mask'], 'rel': 'lin', 'rows': [f1, f2, f3],
+                                 'ab': [a, b], 'ncomb': nc})
     elif k == 'ftmask':
         cfg, nc = task['cfg'], task['ncomb']
         nx = SOLS[cfg['sol']][0]
-        nrows = len(SOLS[cfg['sol']][1])
         pix = comb(nx, nc)
         gen = {'c': 0.5, 'imp': [[j, float((j * 7) % 5 - 2)] for j in range(nc)]}
+        extra = {'val': task['val'], 'dt': task['dt']}
         specs = []
         for p in pix:
             for L in task['lens']:
-                specs.append({'kind': 'run', 'start': p, 'len': L, 'rows': 'all', 'val': task['val'], 'dt': task['dt']})
+                if p + L <= nx:
+                    specs.append(dict(kind='run', start=p, len=L, shift=0, **extra))
         for L in task['lens']:
-            specs.append({'kind': 'run', 'start': 0, 'len': L, 'rows': 'all', 'val': task['val'], 'dt': task['dt']})
-            specs.append({'kind': 'run', 'start': nx - L, 'len': L, 'rows': 'all', 'val': task['val'], 'dt': task['dt']})
-        specs.append({'kind': 'run', 'start': pix[1], 'len': 3, 'rows': [0], 'val': task['val'], 'dt': task['dt']})
-        specs.append({'kind': 'allbut', 'keep': [pix[1]], 'val': task['val'], 'dt': task['dt']})
-        specs.append({'kind': 'allbut', 'keep': [pix[0], pix[-1]], 'val': task['val'], 'dt': task['dt']})
-        specs.append({'kind': 'allbut', 'keep': [], 'val': task['val'], 'dt': task['dt']})
+            specs.append(dict(kind='run', start=0, len=L, shift=0, **extra))
+            specs.append(dict(kind='run', start=nx - L, len=L, shift=0, **extra))
+        specs.append(dict(kind='run', start=pix[1], len=3, shift=2, **extra))
+        specs.append(dict(kind='allbut', keep=[pix[1]], **extra))
+        specs.append(dict(kind='allbut', keep=[pix[0], pix[-1]], **extra))
+        specs.append(dict(kind='allbut', keep=[], **extra))
+        if task['part'] is not None:
+            specs = specs[task['part']::2]
         for sp in specs:
-            wilds = [[1000.0, -777.0], [float('nan'), 1e30]]
-            for wv in wilds:
-                if nrows >= 3:
-                    _do_ft(acc, {'f': 'ft', 'cfg': cfg, 'mask': sp, 'rel': 'maskind', 'rows': [gen, gen, gen], 'ncomb': nc,
-                                 'wild': wv, 'wildrows': [1, 2]})
-                else:
-                    for one in wv:
-                        _do_ft(acc, {'f': 'ft', 'cfg': cfg, 'mask': sp, 'rel': 'maskind', 'rows': [gen, gen], 'ncomb': nc,
-                                     'wild': [one], 'wildrows': [1]})
+            for wv in ([1000.0, -777.0], [float('nan'), 1e30]):
+                _do_ft(acc, {'f': 'ft', 'cfg': cfg, 'mask': sp, 'rel': 'maskind', 'rows': [gen, gen, gen], 'ncomb': nc,
+                             'wild': wv, 'wildrows': [1, 2]})
             # a constant with wild masked pixels, and an impulse hidden under the mask
-            if sp['kind'] == 'run':
-                j0 = pix.index(sp['start']) if sp['start'] in pix else None
-                rows = [{'c': 3.0}, {'c': 0.0, 'imp': [[j0, 1.0]]} if j0 is not None else {'c': -1.0}][:nrows]
-                _do_ft(acc, {'f': 'ft', 'cfg': cfg, 'mask': sp, 'rel': 'hidden', 'rows': rows, 'ncomb': nc,
-                             'wild': [55.0], 'wildrows': [0]})
+            if sp['kind'] == 'run' and sp['start'] in pix and sp['shift'] == 0:
+                j0 = pix.index(sp['start'])
+                _do_ft(acc, {'f': 'ft', 'cfg': cfg, 'mask': sp, 'rel': 'hidden',
+                             'rows': [{'c': 3.0}, {'c': 0.0, 'imp': [[j0, 1.0]]}], 'ncomb': nc, 'wild': [55.0], 'wildrows': [0]})
     return acc
 
 
